@@ -387,6 +387,14 @@ Theorem GenTie_special_pow2 : forall bits a,
 Proof. exact g_next_pow2_eq. Qed.
 Print Assumptions GenTie_special_pow2.
 
+(* src/bits.rs: trailing_zeros, trailing_ones (iter().position(..).map_or(..)) *)
+Theorem GenTie_trailing_rs : forall bits a,
+  0 <= bits -> 64 * nlimbs bits < B -> length a = nlimbsN bits ->
+  g_trailing_zeros bits (nlimbs bits) a = Bits.trailing_zeros bits a /\
+  g_trailing_ones bits (nlimbs bits) a = Bits.trailing_ones bits a.
+Proof. exact g_trailing_eq. Qed.
+Print Assumptions GenTie_trailing_rs.
+
 (* the premises are satisfiable and the generated code computes: reciprocal(2^63) = 2^64 - 1 *)
 Example GenTie_nonvacuous :
   g_reciprocal_mg10 (2 ^ 63) = Val (2 ^ 64 - 1) /\ g_mask 65 = Val 1 /\ g_nlimbs 65 = Val 2 /\
@@ -408,6 +416,8 @@ Example GenTie_nonvacuous :
   g_arithmetic_shr 65 2 [0; 1] 64 = Val [2 ^ 64 - 1; 1] /\
   g_bitxor 65 2 [5; 1] [3; 1] = Val [6; 0] /\
   g_leading_zeros 65 2 [5; 0] = Val 62 /\
+  g_trailing_zeros 65 2 [0; 1] = Val 64 /\
+  g_trailing_ones 65 2 [7; 0] = Val 3 /\
   g_checked_next_power_of_two 65 2 [5; 0] = Val (Some [8; 0]) /\
   g_next_power_of_two 65 2 [1; 1] = Panic /\
   g_byte_len 65 2 [0; 1] = Val 9 /\
